@@ -97,6 +97,8 @@ class Prop(PropBase):
                     v = [base + rng.randint(-2, 2), rng.uniform(-0.5, 0.5)]
                 vals.append([float(v[0]), float(v[1])])
             shape2 = rng.random() < 0.3 and n % 2 == 0
+            if shape2 and rng.random() < 0.5:
+                shape2 = "T3" if n % 4 == 0 and rng.random() < 0.4 else "T"      # views in another memory order
             yield {"op": "order", "vals": [[hx(a), hx(b)] for a, b in vals], "shape2": shape2, "axis": rng.choice([0, -1, None])}
 
     # ------------------------------------------------------------------ real code
@@ -140,7 +142,17 @@ class Prop(PropBase):
         P = ph.Phase(np.array([a for a, _ in vals]), np.array([b for _, b in vals]))
         v = P.view(np.ndarray)
         pairs = [[hx(float(a)), hx(float(b))] for a, b in zip(v["int"].ravel(), v["frac"].ravel())]
-        if case["shape2"]:
+        if case["shape2"] == "T":
+            # a transposed view (not C-contiguous): element [i, j] is element j*2+i of the buffer
+            m = len(pairs) // 2
+            P = P.reshape(m, 2).T
+            pairs = [pairs[j * 2 + i] for i in range(2) for j in range(m)]        # logical (row-major) order of the view
+        elif case["shape2"] == "T3":
+            # a 3-D array with its first and last axes swapped (a view as well)
+            m = len(pairs) // 4
+            P = P.reshape(2, m, 2).swapaxes(0, 2)
+            pairs = [pairs[k * (m * 2) + j * 2 + i] for i in range(2) for j in range(m) for k in range(2)]
+        elif case["shape2"]:
             P = P.reshape(2, -1)
         ax = case["axis"]
         out = {"pairs": pairs}
